@@ -1,97 +1,21 @@
 (* C04 — Reads reflect exactly the committed log (index agrees with history).
    This file contains only the property theorems, each closed by `exact`.
 
-   Two models of embedded/store/indexer.go are involved (coq/Idx/Indexer.v, record `fixes`):
-     cur_code  = the code as it stands in /repo (tied to it on every run by Tie.C04 / harness/c04);
-     all_fixed = the code with fixes/C04-bulk-key-copy.diff, fixes/C04-tombstone-deleted.diff and
-                 fixes/C04-kvs-capacity.diff applied (the harness probes which of the repairs are present and evaluates the
-                 corresponding model, so the tie follows the code when the repairs are committed).
-   For cur_code the property is REFUTED (five witnesses, each replayed on the real store by
-   harness/c04/probes.go) and the strongest true statement is kept as `..._partial`.
-   For all_fixed the full theorems are proved: for every history, every index specification and
-   every bulk schedule. *)
+   The model of embedded/store/indexer.go is `all_fixed` of coq/Idx/Indexer.v: the code of /repo
+   after the repairs d549efb (keys accumulated into a bulk are copied; each transaction's own id is
+   used for the injective-mapping lookup; an index does not wait for itself), e3b45a5 (bulk buffer
+   has room for the tombstones), 9ae1e79 (tombstone marked deleted whatever the replaced entry's
+   metadata) and 89781aa (Snapshot.History revision numbers).  Tie.C04 evaluates this model — and
+   the specification — on every run; the directed replays of the five repaired defects
+   (harness/c04/probes.go) run on every check and a recurrence is a violation.  The model of the code
+   before the repairs (`cur_code`) and its refutation witnesses are kept in coq/Idx/Refuted.v and
+   coq/Idx/Partial.v as history; nothing here depends on them. *)
 From V Require Import Store.Codec Idx.Spec Idx.Indexer Idx.IndexerProofs Idx.SerProofs Idx.ReadProofs
-  Idx.Theorems Idx.Partial Idx.Refuted.
+  Idx.Theorems.
 From Coq Require Import Sorted.
 
 (* ------------------------------------------------------------------ *)
-(* the code as it stands                                                *)
-
-(* REFUTED for the current code: there is a committed history, an index (the default one), a bulk
-   schedule (one bulk of 2) after which the index has caught up with the whole history and its
-   content is NOT the index of that history (key aliasing in indexSince). *)
-Theorem C04_index_equals_history_refuted :
-  exists s lim h ks st,
-    wf_history h = true /\ history_ok h = true /\ spec_ok s /\
-    run cur_code s lim h ks istate_init = Ok st /\ N.to_nat (tb_ts (is_tb st)) = length h /\
-    tb_map (is_tb st) <> ser_index (index_of_history s (firstn (N.to_nat (tb_ts (is_tb st))) h)).
-Proof. exact index_equals_history_refuted. Qed.
-Print Assumptions C04_index_equals_history_refuted.
-
-(* REFUTED for the current code: a committed live key is not found by Get once indexing has caught
-   up (the lost key of the witness above). *)
-Theorem C04_get_is_latest_live_refuted :
-  exists s lim h ks st now k x,
-    wf_history h = true /\ history_ok h = true /\ spec_ok s /\
-    run cur_code s lim h ks istate_init = Ok st /\ N.to_nat (tb_ts (is_tb st)) = length h /\
-    get now (index_of_history s h) k = Ok x /\ store_get now (is_tb st) k = Err ENotFound.
-Proof. exact get_is_latest_live_refuted. Qed.
-Print Assumptions C04_get_is_latest_live_refuted.
-
-(* REFUTED for the current code: in an injective (SQL-like secondary) index a mapped key whose row
-   has since been overwritten stays live: (1) when the overwritten version was written inside the
-   same bulk (the lookup is made as of the first transaction of the bulk), (2) with bulks of one
-   transaction when the overwritten entry carries metadata (the tombstone is not marked deleted). *)
-Theorem C04_injective_tombstone_refuted :
-  (exists h ks st k r,
-     wf_history h = true /\ history_ok h = true /\
-     run cur_code w_secondary wlim h ks istate_init = Ok st /\ N.to_nat (tb_ts (is_tb st)) = length h /\
-     get 0 (index_of_history w_secondary h) k = Err ENotFound /\ store_get 0 (is_tb st) k = Ok r) /\
-  (exists h n st k r,
-     wf_history h = true /\ history_ok h = true /\
-     run cur_code w_secondary wlim h (repeat 1%nat n) istate_init = Ok st /\ N.to_nat (tb_ts (is_tb st)) = length h /\
-     get 0 (index_of_history w_secondary h) k = Err ENotFound /\ store_get 0 (is_tb st) k = Ok r).
-Proof. exact injective_tombstone_refuted. Qed.
-Print Assumptions C04_injective_tombstone_refuted.
-
-(* REFUTED for the current code: Snapshot.History(key, offset 2, ascending, limit 2) over 5 versions
-   numbers the versions 5, 4 where the history of the key says 3, 4. *)
-Theorem C04_snapshot_history_refuted :
-  exists st, run cur_code w_default wlim h4 (repeat 1%nat 5) istate_init = Ok st /\
-             option_map (fun x => map r_hc (fst x))
-               (match snapshot_history false (is_tb st) [107] 2 false 2 with Ok x => Some x | _ => None end) = Some [5; 4] /\
-             option_map (fun x => map r_hc (fst x))
-               (match store_history (is_tb st) [107] 2 false 2 with Ok x => Some x | _ => None end) = Some [3; 4].
-Proof. exact snapshot_history_refuted. Qed.
-Print Assumptions C04_snapshot_history_refuted.
-
-(* REFUTED for the current code: indexing does not even terminate normally — with MaxTxEntries = 4 a
-   transaction that re-maps 4 keys of an injective index makes indexSince write 8 items into the 4
-   pre-allocated ones: a Go runtime panic in the indexer goroutine (the process dies). The repaired
-   code (room for entry + tombstone) indexes the same history. *)
-Theorem C04_indexer_panics_refuted :
-  wf_history h6 = true /\ history_ok h6 = true /\
-  Forall (fun t => (length (t_entries t) <= N.to_nat (maxtx wlim4))%nat) h6 /\
-  run cur_code w_secondary wlim4 h6 [1%nat; 1%nat] istate_init = Panic /\
-  (exists st, run all_fixed w_secondary wlim4 h6 [1%nat; 1%nat] istate_init = Ok st /\ tb_ts (is_tb st) = 2).
-Proof. exact indexer_panics_refuted. Qed.
-Print Assumptions C04_indexer_panics_refuted.
-
-(* PARTIAL, true of the current code: with bulks of ONE transaction (MaxBulkSize = 1, the default)
-   and an index that writes no tombstones (not injective, or no index registered for its source
-   keys), for every history and however far indexing got, the index content is exactly the index
-   of the history up to there. *)
-Theorem C04_index_equals_history_partial :
-  forall s lim h n st,
-    wf_history h = true -> tomb_active s = false -> spec_ok s ->
-    run cur_code s lim h (repeat 1%nat n) istate_init = Ok st ->
-    (N.to_nat (tb_ts (is_tb st)) <= length h)%nat /\
-    tb_map (is_tb st) = ser_index (index_of_history s (firstn (N.to_nat (tb_ts (is_tb st))) h)).
-Proof. exact index_equals_history_partial. Qed.
-Print Assumptions C04_index_equals_history_partial.
-
-(* ------------------------------------------------------------------ *)
-(* the repaired code                                                    *)
+(* the theorems                                                         *)
 
 (* For EVERY committed history, EVERY index specification (prefixes, source/target mappers,
    injective or not) and EVERY grouping of the transactions into bulks: when the indexer stops,
